@@ -61,6 +61,7 @@ Theorem C10_fista_nonneg : forall (eps lr sp rg : R) (lin : list R -> list R) (U
 Proof. exact fista_nn. Qed.
 Print Assumptions C10_fista_nonneg.
 
+(* (definitional: the abstract skeleton IS "every executed iteration ends with a clip"; the content is in the two theorems after it) *)
 Theorem C10_active_set_nonneg : forall (support : nat -> list R -> list R) (x : list R) (n : nat),
   vnn x \/ (0 < n)%nat -> vnn (active_set Rops support x n).
 Proof. exact (fun support x n H => match H with or_introl Hx => active_set_nn support x n Hx | or_intror Hn => active_set_ge support x n Hn end). Qed.
@@ -73,6 +74,15 @@ Theorem C10_active_set_nnls_nonneg : forall (solve : list (list R) -> list R -> 
   active_set_nnls Rops solve Utm UtU tol x0 n_iter_max = Some out -> vnn x0 \/ (0 < n_iter_max)%nat -> vnn out.
 Proof. exact active_set_nnls_nonneg. Qed.
 Print Assumptions C10_active_set_nnls_nonneg.
+
+(* ... and that result is an instance of the abstract skeleton (the support vectors of that run, k <= n_iter_max executed iterations):
+   C10_non_negative_tucker_hals, stated for EVERY support oracle and iteration count, therefore covers the transcribed control flow *)
+Theorem C10_active_set_nnls_is_skeleton : forall (solve : list (list R) -> list R -> option (list R)) (Utm : list R) (UtU : list (list R)) (tol : R)
+         (x0 : list R) (n_iter_max : nat) (out : list R),
+  active_set_nnls Rops solve Utm UtU tol x0 n_iter_max = Some out ->
+  exists (support : nat -> list R -> list R) (k : nat), (k <= n_iter_max)%nat /\ out = active_set Rops support x0 k.
+Proof. exact active_set_nnls_is_skeleton. Qed.
+Print Assumptions C10_active_set_nnls_is_skeleton.
 
 (* ---- initialisations *)
 Theorem C10_initialize_cp_feasible : forall (nrm : list R -> R), (forall v, 0 <= nrm v) ->
@@ -88,6 +98,13 @@ Theorem C10_initialize_cp_user_feasible : forall (nrm : list R -> R), (forall v,
   vnn w -> (forall m, D m -> mnn (nth m Fs [])) -> cp_inv D (initialize_cp_user_norm Rops nrm w Fs nm).
 Proof. exact initialize_cp_user_norm_inv. Qed.
 Print Assumptions C10_initialize_cp_user_feasible.
+
+(* non_negative_parafac_hals with a user start: weights into the last updated mode when the last mode is fixed (after 3d55b5c) *)
+Theorem C10_initialize_cp_user_hals_feasible : forall (nrm : list R -> R), (forall v, 0 <= nrm v) ->
+  forall (D : nat -> Prop) (w : list R) (Fs : list (list (list R))) (modes : list nat) (nm : bool),
+  vnn w -> (forall m, D m -> mnn (nth m Fs [])) -> cp_inv D (initialize_cp_user_hals Rops nrm w Fs modes nm).
+Proof. exact initialize_cp_user_hals_inv. Qed.
+Print Assumptions C10_initialize_cp_user_hals_feasible.
 
 Theorem C10_initialize_tucker_feasible : forall (core : tensor R) (raw : list (list (list R))),
   tk_inv (initialize_tucker_nn Rops core raw).
@@ -194,6 +211,68 @@ Theorem C10_initialize_parafac2_feasible : forall (nn_modes : list nat) (raw : l
   forall m, In m nn_modes -> mnn (nth m (initialize_parafac2_nn Rops nn_modes raw) []).
 Proof. exact initialize_parafac2_nn_nonneg. Qed.
 Print Assumptions C10_initialize_parafac2_feasible.
+
+(* ---- initialise, then decompose: "any built-in initialisation, any iteration count" as single statements -- for ANY raw (signed)
+        SVD / random factors and core, no hypothesis on the start is left *)
+Theorem C10_init_then_non_negative_parafac : forall (nrm : list R -> R), (forall v, 0 <= nrm v) ->
+  forall (Rk : nat) (raw : list (list (list R))) (nm0 : bool) (eps : R) (numf denf : nat -> @cp_state R -> nat -> list (list R))
+         (stop : nat -> @cp_state R -> bool) (normalize : bool) (modes : list nat) (n_iter_max : nat),
+  0 < eps ->
+  let out := non_negative_parafac Rops nrm eps numf denf stop normalize modes n_iter_max (initialize_cp_nn Rops nrm Rk raw nm0) in
+  vnn (fst out) /\ Forall mnn (snd out).
+Proof. exact init_then_non_negative_parafac. Qed.
+Print Assumptions C10_init_then_non_negative_parafac.
+
+Theorem C10_init_then_non_negative_parafac_hals : forall (nrm : list R -> R), (forall v, 0 <= nrm v) ->
+  forall (Rk : nat) (raw : list (list (list R))) (nm0 : bool) (utm utu : nat -> @cp_state R -> nat -> list (list R))
+         (solve : list (list R) -> list (list R) -> list (list R)) (inner : nat -> @cp_state R -> nat -> nat) (stop : nat -> @cp_state R -> bool)
+         (nn_modes : list nat) (sps : list (option R)) (normalize : bool) (modes : list nat) (n_iter_max : nat),
+  let out := non_negative_parafac_hals Rops nrm utm utu solve inner stop nn_modes sps normalize modes n_iter_max (initialize_cp_nn Rops nrm Rk raw nm0) in
+  vnn (fst out) /\ forall m, In m nn_modes -> mnn (nth m (snd out) []).
+Proof. exact init_then_non_negative_parafac_hals. Qed.
+Print Assumptions C10_init_then_non_negative_parafac_hals.
+
+Theorem C10_init_then_non_negative_tucker : forall (nrm : list R -> R), (forall v, 0 <= nrm v) ->
+  forall (core : tensor R) (raw : list (list (list R))) (eps : R) (numf denf : nat -> @tk_state R -> nat -> list (list R))
+         (numc denc : nat -> @tk_state R -> list R) (stop : nat -> @tk_state R -> bool) (normalize : bool) (n_modes n_iter_max : nat),
+  0 < eps ->
+  let out := non_negative_tucker Rops nrm eps numf denf numc denc stop normalize n_modes n_iter_max (initialize_tucker_nn Rops core raw) in
+  vnn (data (fst out)) /\ Forall mnn (snd out).
+Proof. exact init_then_non_negative_tucker. Qed.
+Print Assumptions C10_init_then_non_negative_tucker.
+
+Theorem C10_init_then_non_negative_tucker_hals : forall (nrm : list R -> R), (forall v, 0 <= nrm v) ->
+  forall (core : tensor R) (raw : list (list (list R))) (alg : core_alg) (fista_eps : R)
+         (utm utu : nat -> @tk_state R -> nat -> list (list R)) (inner : nat -> @tk_state R -> nat -> nat)
+         (sps : list (option R)) (lr : nat -> @tk_state R -> R) (csp : R) (lin : nat -> @tk_state R -> list R -> list R)
+         (cutm : nat -> @tk_state R -> list R) (betas : nat -> @tk_state R -> list R) (support : nat -> @tk_state R -> nat -> list R -> list R)
+         (as_n : nat -> @tk_state R -> nat) (stop : nat -> @tk_state R -> bool) (normalize : bool) (modes : list nat) (n_iter_max : nat),
+  0 <= fista_eps ->
+  let out := non_negative_tucker_hals Rops nrm alg fista_eps utm utu inner sps lr csp lin cutm betas support as_n stop normalize modes
+               n_iter_max (initialize_tucker_nn Rops core raw) in
+  vnn (data (fst out)) /\ Forall mnn (snd out).
+Proof. exact init_then_non_negative_tucker_hals. Qed.
+Print Assumptions C10_init_then_non_negative_tucker_hals.
+
+Theorem C10_init_then_constrained_parafac : forall (nn_modes : list nat) (other : nat -> list (list R) -> list (list R))
+         (raw Ds : list (list (list R))) (split : nat -> @ccp_state R -> nat -> list (list R) -> list (list R) -> list (list R))
+         (inner : nat -> @ccp_state R -> nat -> nat) (stop : nat -> @ccp_state R -> bool) (modes : list nat) (n_iter_max : nat),
+  forall m, In m nn_modes ->
+    mnn (nth m (fst (constrained_parafac Rops nn_modes other split inner stop modes n_iter_max (initialize_ccp Rops nn_modes other raw, Ds))) []).
+Proof. exact init_then_constrained_parafac. Qed.
+Print Assumptions C10_init_then_constrained_parafac.
+
+Theorem C10_init_then_parafac2 : forall (nrm : list R -> R), (forall v, 0 <= nrm v) ->
+  forall (nn_modes : list nat) (raw : list (list (list R))) (Rk : nat)
+         (utm utu : nat -> nat -> @cp_state R -> nat -> list (list R)) (solve : list (list R) -> list (list R) -> list (list R))
+         (inner : nat -> nat -> @cp_state R -> nat -> nat) (istop : nat -> nat -> @cp_state R -> bool)
+         (n_iter_parafac : nat) (line : nat -> option R) (accept : nat -> @cp_state R -> bool) (normalize : bool)
+         (stop : nat -> @cp_state R -> bool) (n_iter_max : nat),
+  let out := parafac2 Rops nrm utm utu solve inner istop nn_modes n_iter_parafac line accept normalize stop n_iter_max
+                      (repeat (f1 Rops) Rk, initialize_parafac2_nn Rops nn_modes raw) in
+  vnn (fst out) /\ forall m, In m nn_modes -> mnn (nth m (snd out) []).
+Proof. exact init_then_parafac2. Qed.
+Print Assumptions C10_init_then_parafac2.
 
 (* ---- non-vacuity and sharpness *)
 (* the hypotheses are satisfiable; the model computes on a signed tensor *)
